@@ -18,8 +18,10 @@ CPUS = sorted(os.sched_getaffinity(0))
 class Worker:
     """runs one arithmetic progression of seeds, restarting the harness process after a fatal run"""
 
-    def __init__(self, binary, variant, tier_num, first, count, stride, env=None, cpu=None):
+    def __init__(self, binary, variant, tier_num, first, count, stride, env=None, cpu=None, chunk=None, extra=None):
         self.cpu = cpu
+        self.chunk = chunk or CHUNK
+        self.extra = extra or []
         self.binary, self.variant, self.tier_num = binary, variant, tier_num
         self.first, self.count, self.stride = first, count, stride
         self.env = env
@@ -30,7 +32,7 @@ class Worker:
         while left > 0:
             if deadline and time.time() > deadline:
                 break
-            cmd = bin_cmd(self.binary) + ["--seeds", str(nxt), str(min(left, CHUNK)), str(self.stride), "--tier", str(self.tier_num), "--variant", self.variant]
+            cmd = bin_cmd(self.binary) + ["--seeds", str(nxt), str(min(left, self.chunk)), str(self.stride), "--tier", str(self.tier_num), "--variant", self.variant] + self.extra
             if self.cpu is not None:   # all threads of one simulated process on one core: baton passing stays cheap
                 cmd = ["taskset", "-c", str(self.cpu)] + cmd
             p = subprocess.run(cmd, stdout=subprocess.PIPE, stderr=subprocess.PIPE, text=True, env=self.env)
@@ -268,7 +270,8 @@ def run_sim_check(spec, args):
             for w in range(nw):
                 cnt = (nruns - w + nw - 1) // nw
                 if cnt > 0:
-                    workers.append(Worker(binaries[v], v, tier_num, base + rounds * total + off + w, cnt, nw, env, cpu=CPUS[len(workers) % len(CPUS)]))
+                    extra = ["--workdir", os.path.join(spec["workdir"], "w%d" % len(workers))] if spec.get("workdir") else None
+                    workers.append(Worker(binaries[v], v, tier_num, base + rounds * total + off + w, cnt, nw, env, cpu=CPUS[len(workers) % len(CPUS)], chunk=spec.get("chunk"), extra=extra))
             off += 0   # every variant explores the same seeds: differences between variants are then attributable to the variant
         with concurrent.futures.ThreadPoolExecutor(max_workers=len(workers)) as ex:
             list(ex.map(lambda w: w.go(deadline), workers))
@@ -287,7 +290,7 @@ def run_sim_check(spec, args):
     def resample(keys):
         out = []
         for (v, s) in keys:
-            w = Worker(binaries[v], v, tier_num, s, 1, 1, env).go()
+            w = Worker(binaries[v], v, tier_num, s, 1, 1, env, chunk=spec.get("chunk")).go()
             if w.records:
                 out.append(((v, s), w.records[0]))
         return out
